@@ -10,6 +10,7 @@ import (
 	"crypto/rand"
 	"crypto/x509/pkix"
 	"fmt"
+	"io"
 	"math/big"
 	"net"
 	"os"
@@ -701,6 +702,46 @@ func TestC20_FirstUse(t *testing.T) {
 
 // ---------- part C: one server Config and one client Config (+ session cache) serving simultaneous connections
 
+type yieldingReader struct{ r io.Reader }
+
+func (y yieldingReader) Read(p []byte) (int, error) {
+	runtime.Gosched()
+	n, err := y.r.Read(p)
+	runtime.Gosched()
+	return n, err
+}
+
+// issuedTicket returns the ticket of the NewSessionTicket message the server sent in the clear, if any.
+func issuedTicket(log []rgmssl.Chunk) []byte {
+	var stream, hs []byte
+	for _, c := range log {
+		if !c.FromClient {
+			stream = append(stream, c.Data...)
+		}
+	}
+	for len(stream) >= 5 {
+		n := int(stream[3])<<8 | int(stream[4])
+		if len(stream) < 5+n || stream[0] == 20 {
+			break
+		}
+		if stream[0] == 22 {
+			hs = append(hs, stream[5:5+n]...)
+		}
+		stream = stream[5+n:]
+	}
+	for len(hs) >= 4 {
+		n := int(hs[1])<<16 | int(hs[2])<<8 | int(hs[3])
+		if len(hs) < 4+n {
+			break
+		}
+		if hs[0] == 4 && n >= 6 {
+			return hs[4+6 : 4+n]
+		}
+		hs = hs[4+n:]
+	}
+	return nil
+}
+
 // keyLog is a plain, unsynchronised io.Writer handed to several Config values as KeyLogWriter: the library promises to
 // serialise the writes of all connections ("writerMutex protects all KeyLogWriters globally"), so calls never overlap.
 type keyLog struct {
@@ -761,6 +802,10 @@ func TestC20_SharedConfig(t *testing.T) {
 		}
 		keys := [][32]byte{{1, byte(cn)}}
 		sc.SetSessionTicketKeys(keys)
+		everKeys := append([][32]byte{}, keys...) // every ticket key this server was ever given (written by the rotator only)
+		// the server's randomness source yields the processor on every read: other goroutines (the key rotator among
+		// them) get to run in the middle of whatever the library is assembling from random bytes
+		sc.Rand = yieldingReader{sc.Rand}
 		var kl *keyLog
 		if gen.Uniform(t, "keylog", 4) != 0 {
 			// one key log for the client Config and the server Config (two Config values, one writer)
@@ -803,6 +848,7 @@ func TestC20_SharedConfig(t *testing.T) {
 					// half of the cases keep every earlier key (the list grows, capped at 12), the others rotate the
 					// usual way: [new, previous], a list of constant length
 					keys = append([][32]byte{{2, byte(cn), byte(j), byte(j >> 8)}}, keys...)
+					everKeys = append(everKeys, keys[0])
 					if cn%2 == 0 && len(keys) > 2 {
 						keys = keys[:2]
 					}
@@ -831,6 +877,37 @@ func TestC20_SharedConfig(t *testing.T) {
 			for _, l := range lines {
 				if !keyLogLine.MatchString(l) {
 					t.Fatalf("key log damaged by concurrent connections: line %q (mode=%s, %d connections, %d lines)", l, mode, k, len(lines))
+				}
+			}
+		}
+		// every ticket the server issued (NewSessionTicket travels in the clear) is sealed under ONE of the keys the server
+		// held at some time: it opens under the set of all of them. A ticket named after one key and sealed under another
+		// (assembled across a rotation) opens under none.
+		ticketsSeen := 0
+		{
+			kc := &gmtls.Config{}
+			for i := range outs {
+				if outs[i].r == nil {
+					continue
+				}
+				tk := issuedTicket(outs[i].r.Log)
+				if tk == nil {
+					continue
+				}
+				ticketsSeen++
+				opened := false
+				for lo := 0; lo < len(everKeys) && !opened; lo += 40 {
+					hi := lo + 40
+					if hi > len(everKeys) {
+						hi = len(everKeys)
+					}
+					kc.SetSessionTicketKeys(everKeys[lo:hi])
+					if ok, _, _, _, _ := gmtls.VerifDecryptTicket(kc, tk); ok {
+						opened = true
+					}
+				}
+				if !opened {
+					t.Fatalf("connection %d: the server issued a session ticket that opens under none of the %d keys it ever held (mode=%s, %d connections, rotations while they ran)", i, len(everKeys), mode, k)
 				}
 			}
 		}
